@@ -82,7 +82,8 @@ Record shared := {
 }.
 
 Record clocal := { c_tipv : Z; c_tiph : nat; c_start : nat; c_hdrs : list blk }.
-Record blocal := { b_back : nat; bs_h : nat; bs_id : Z; b_regh : nat; b_cur : blk; b_curh : nat }.
+Record blocal := { b_back : nat; bs_h : nat; bs_id : Z; b_regh : nat; b_cur : blk; b_curh : nat;
+                   b_roll : bool (* this iteration rolls the filter header back too *) }.
 
 Record cstate := {
   sh : shared;
@@ -263,7 +264,7 @@ Definition bh_step (c : cfg) (st : cstate) : cstate * obs :=
           | None => (set_bp st BDone, ob 1 1 0 0 0)                          (* does not connect *)
           | Some back =>
             let st1 := set_bl st {| b_back := back; bs_h := O; bs_id := 0; b_regh := O;
-                                    b_cur := {| bid := 0; bprev := 0 |}; b_curh := O |} in
+                                    b_cur := {| bid := 0; bprev := 0 |}; b_curh := O; b_roll := false |} in
             if g_locked c then
               match lock st with
               | None => (set_bp (set_lock st1 (Some true)) BR0, ob 1 1 1 0 0)
@@ -278,13 +279,13 @@ Definition bh_step (c : cfg) (st : cstate) : cstate * obs :=
     let h := (length (bchain s) - 1)%nat in
     let x := tip_id (bchain s) in
     (set_bp (set_bl st {| b_back := b_back l; bs_h := h; bs_id := x; b_regh := b_regh l;
-                          b_cur := b_cur l; b_curh := b_curh l |}) BR1, ob 1 20 x (zof h) 0)
+                          b_cur := b_cur l; b_curh := b_curh l; b_roll := b_roll l |}) BR1, ob 1 20 x (zof h) 0)
   | BR1 =>
     match f_chain_tip s with
     | None => (panic_b c st, ob 1 10 (-1) 0 0)
     | Some (e, h) =>
       (loop_head c (set_bl st {| b_back := b_back l; bs_h := bs_h l; bs_id := bs_id l; b_regh := h;
-                                 b_cur := b_cur l; b_curh := b_curh l |}), ob 1 10 (fv e) (zof h) 0)
+                                 b_cur := b_cur l; b_curh := b_curh l; b_roll := b_roll l |}), ob 1 10 (fv e) (zof h) 0)
     end
   | BB1 =>
     match index_of (bs_id l) (bchain s) with
@@ -292,7 +293,7 @@ Definition bh_step (c : cfg) (st : cstate) : cstate * obs :=
     | Some h =>
       let cur := nth h (bchain s) {| bid := 0; bprev := 0 |} in
       let st1 := set_bl st {| b_back := b_back l; bs_h := bs_h l; bs_id := bs_id l; b_regh := b_regh l;
-                              b_cur := cur; b_curh := h |} in
+                              b_cur := cur; b_curh := h; b_roll := (bs_h l <=? b_regh l)%nat |} in
       (set_bp st1 (if (bs_h l <=? b_regh l)%nat then BB2 else BB4), ob 1 21 (bs_id l) (zof h) 0)
     end
   | BB2 =>
@@ -310,7 +311,7 @@ Definition bh_step (c : cfg) (st : cstate) : cstate * obs :=
                        memtip := memtip s; memhash := memhash s; events := events s |} in
           let st1 := set_bl (set_sh (mark_b st) s')
                             {| b_back := b_back l; bs_h := bs_h l; bs_id := bs_id l; b_regh := nh;
-                               b_cur := b_cur l; b_curh := b_curh l |} in
+                               b_cur := b_cur l; b_curh := b_curh l; b_roll := b_roll l |} in
           (set_bp st1 BB3, ob 1 22 nt (zof nh) 0)
         end
       end
@@ -330,7 +331,7 @@ Definition bh_step (c : cfg) (st : cstate) : cstate * obs :=
                    memtip := memtip s; memhash := memhash s; events := events s |} in
       let st1 := set_bl (set_sh (mark_b st) s')
                         {| b_back := b_back l; bs_h := n; bs_id := x; b_regh := b_regh l;
-                           b_cur := b_cur l; b_curh := b_curh l |} in
+                           b_cur := b_cur l; b_curh := b_curh l; b_roll := b_roll l |} in
       (set_bp st1 BB5, ob 1 24 x (zof n) 0)
     end
   | BB5 =>
@@ -395,7 +396,7 @@ Definition init_state (bc : list blk) (ff : list fent) : cstate :=
   {| sh := init_shared bc ff; lock := None;
      cp := CStart; cl := {| c_tipv := 0; c_tiph := O; c_start := O; c_hdrs := [] |};
      bp := BStart; bl := {| b_back := O; bs_h := O; bs_id := 0; b_regh := O;
-                            b_cur := {| bid := 0; bprev := 0 |}; b_curh := O |};
+                            b_cur := {| bid := 0; bprev := 0 |}; b_curh := O; b_roll := false |};
      fl := 0 |}.
 
 Definition c_done (p : cpc) : bool := match p with CDone _ => true | _ => false end.
